@@ -85,7 +85,7 @@ def src_of(case, mode):
 def go_crosscheck(chk, sd, cases):
     """the strict-mode predictions of the specification against the Go compiler, for every generated cell"""
     todo = [(i, c) for i, c in enumerate(cases) if c["exp"]["strict"]["wf"]]
-    chunks = [todo[i:i + 3000] for i in range(0, len(todo), 3000)]
+    chunks = [todo[i:i + 1500] for i in range(0, len(todo), 1500)]
 
     def one(n_chunk):
         n, chunk = n_chunk
